@@ -23,6 +23,11 @@ func crashUnits(prop, tier string) []Unit {
 				budgets = []int{0}
 				o.Nested = 0
 			}
+			if w.Name == "W9-many-tables" {
+				budgets = []int{0}
+				o.Nested = 0
+				o.Clocks = []int{0}
+			}
 		case "C04":
 			o = crashOpts{Clocks: []int{0, 1, 2}, Atomicity: true, Nested: 1}
 			budgets = []int{0, 1}
@@ -43,7 +48,7 @@ func crashUnits(prop, tier string) []Unit {
 				o.Nested = 1
 				budgets = []int{0, 1, 2}
 			}
-			if w.Name == "W6-multikey-atomicity" {
+			if w.Name == "W6-multikey-atomicity" || w.Name == "W9-many-tables" {
 				continue
 			}
 			if w.Name == "W7-large-multikey" {
